@@ -211,7 +211,24 @@ impl<P: Payload> Proc<P> {
             sched::point(sched::H_BARRIER, 0, gu(op, "ph"), 0);
             return;
         }
-        let h = gu(op, "h") as usize;
+        let mut h = gu(op, "h") as usize;
+        // side addressing: the newest ("hs") or oldest ("hso") live handle of a side
+        for (key, newest) in [("hs", true), ("hso", false)] {
+            let sd = gs(op, key);
+            if !sd.is_empty() {
+                let mut found = None;
+                for (i, hh) in self.hs.iter().enumerate() {
+                    let c = hh.code();
+                    if c != "gone" && c.ends_with(sd) && (newest || found.is_none()) {
+                        found = Some(i);
+                    }
+                }
+                match found {
+                    Some(i) => h = i,
+                    None => return,
+                }
+            }
+        }
         let fi = gu(op, "f") as usize;
         let m = gu(op, "m") as u32;
         let dur = Duration::from_nanos(gu(op, "d") * sched::TICK);
@@ -431,6 +448,9 @@ impl<P: Payload> Proc<P> {
             }
             // ---------------------------------------------------------------- futures
             "asend_new" => {
+                if fi < self.futs.len() && !matches!(self.futs[fi], Fut::None) {
+                    return; // slot occupied: ill-formed, skipped
+                }
                 if self.hs[h].as_().is_none() {
                     return;
                 }
@@ -442,6 +462,9 @@ impl<P: Payload> Proc<P> {
                 self.end(oid, &res("Ok"));
             }
             "arecv_new" => {
+                if fi < self.futs.len() && !matches!(self.futs[fi], Fut::None) {
+                    return; // slot occupied: ill-formed, skipped
+                }
                 if self.hs[h].ar().is_none() {
                     return;
                 }
@@ -453,6 +476,9 @@ impl<P: Payload> Proc<P> {
                 self.end(oid, &res("Ok"));
             }
             "stream_new" => {
+                if fi < self.futs.len() && !matches!(self.futs[fi], Fut::None) {
+                    return; // slot occupied: ill-formed, skipped
+                }
                 if self.hs[h].ar().is_none() {
                     return;
                 }
